@@ -63,6 +63,8 @@ Delimit Scope string_scope with string.
 Theorem one_cache_for_all_services :
   Gen.Consts.replay_cache_args = ["&s.replayCache"; "&s.replayCache"]%string /\
   List.length Gen.Consts.replay_cache_args = Gen.Consts.new_service_calls /\
-  Gen.Consts.replay_cache_constructed_in = ["RunOutlineServer"]%string.
+  Gen.Consts.replay_cache_constructed_in = ["RunOutlineServer"]%string /\
+  (* ... with the configured history size itself *)
+  Gen.Consts.replay_cache_size_args = ["replayHistory"]%string.
 Proof. repeat split; reflexivity. Qed.
 Print Assumptions one_cache_for_all_services.
